@@ -7,6 +7,7 @@
 -/
 import PygModel.Group
 import PygProofs.Lemmas.GroupLemmas
+import PygProofs.Lemmas.UnlistLemmas
 
 namespace Pyg.Props.C11
 open Pyg
@@ -59,6 +60,59 @@ theorem listby_table (t : Table) (by_ : List String) (keys : List Val)
       (t.others by_).map fun c => (c.1, (listbyG keys).map fun g => .list (pick c.2 g.2))) := by
   have hb' : by_.isEmpty = false := by cases by_ <;> simp_all
   simp [Table.listby, hn, hb', hk, bind, Except.bind, pure, Except.pure]
+
+/-- **unlist ∘ listby, table level**: for a non-empty table, explicit distinct key columns that leave
+at least one other column, `d.listby(by).unlist()` is the table whose non-key columns are those of
+`d` with the rows taken in the order of the stable sort of the keys (`sortIdx`, the row permutation
+of `dictable.sort`, C07), and whose key columns repeat, for every row, the key of its group —
+which is `cmp`-equal to that row's own key (`unlist_listby_keys`). -/
+theorem unlist_listby (t : Table) (by_ : List String) (keys : List Val)
+    (hn : t.nrows ≠ 0) (hb : by_ ≠ []) (hnd : by_.Nodup)
+    (htn : ((t.others by_).map (·.1)).Nodup) (ho : t.others by_ ≠ [])
+    (hk : t.keysOf (by_.map .col) = .ok keys) :
+    (t.listby by_ >>= VTable.unlist) = .ok (
+      (by_.zipIdx.map fun c =>
+        (c.1, (listbyG keys).flatMap fun g => g.2.map fun _ => tupleGet c.2 g.1)) ++
+      (t.others by_).map fun c => (c.1, pick c.2 (sortIdx keys))) := by
+  have hkl : keys ≠ [] := by
+    intro h; apply hn; rw [← keysOf_length hk, h]; rfl
+  have hgs : listbyG keys ≠ [] := by
+    intro h
+    have := (listbyG_perm keys).length_eq
+    rw [h] at this
+    simp at this
+    exact hkl (List.eq_nil_of_length_eq_zero this.symm)
+  have hct : ∀ g ∈ listbyG keys, CellTuple g.1 := fun g hg =>
+    keysOf_cellTuple hk _ (listbyG_key_mem hkl g hg)
+  rw [listby_table t by_ keys hn hb hk]
+  show VTable.unlist (listbyTable t by_ (listbyG keys)) = _
+  rw [unlist_listbyTable t by_ (listbyG keys) hb hnd htn ho hgs (listbyG_nonempty hkl) hct]
+  congr 2
+  · apply List.map_congr_left
+    intro c _
+    congr 1
+    apply flatMap_congr'
+    intro g _
+    exact (List.map_const' ..).symm
+  · apply List.map_congr_left
+    intro c _
+    congr 1
+    rw [← listbyG_flat keys]
+    simp [pick, List.map_flatMap]
+
+/-- the key that `unlist ∘ listby` writes next to row `i` is `cmp`-equal to row `i`'s own key, and
+the rows appear in the order of the stable sort -/
+theorem unlist_listby_keys (keys : List Val) :
+    ((listbyG keys).flatMap fun g => g.2.map fun i => (g.1, i)).map (·.2) = sortIdx keys ∧
+    ∀ p ∈ (listbyG keys).flatMap (fun g => g.2.map fun i => (g.1, i)),
+      cmp p.1 (keyAt keys p.2) = .eq := by
+  constructor
+  · rw [← listbyG_flat keys]
+    simp [List.map_flatMap, List.map_map, Function.comp_def]
+  · intro p hp
+    simp only [List.mem_flatMap, List.mem_map] at hp
+    obtain ⟨g, hg, i, hi, rfl⟩ := hp
+    exact cmp_eq_symm ((mem_group_iff hg).1 hi).2
 
 /-- `groupby` likewise: one sub-table per group holding that group's rows of the other columns -/
 theorem groupby_table (t : Table) (by_ : List String) (grp : String) (keys : List Val)
